@@ -136,6 +136,45 @@ def load_case(ctx: Ctx):
     return rp
 
 
+def cosim_ops(ctx: Ctx, rp, k: int):
+    """what a co-simulation operator may legitimately do to stations between calls, through the public entity
+    methods and runner_payload_ops.modify_entities: throttle a plug type (Station.scale_charger_rate) or enlarge a
+    station by one plug of a type it already has (Station.append_chargers)."""
+    from nrel.hive.runner.runner_payload_ops import modify_entities_safe
+    from returns.result import Failure
+
+    o = ctx.opts["cosim_ops"]
+    if k == 0 or k % int(o.get("every", 5)) != 0:
+        return rp
+    r = C._rng(ctx.case.get("case_seed", 0), "cosim", k)
+    kind = r.choice(o.get("kinds", ["scale_rate"]))
+    sids = rp.s.get_station_ids()
+    if not sids:
+        return rp
+    st = rp.s.stations[r.choice(sids)]
+    cids = sorted(st.state.keys())
+    busy = [c for c in cids if st.state[c].available_chargers < st.state[c].total_chargers or st.state[c].enqueued_vehicles > 0]
+    cid = r.choice(busy or cids)
+    new = None
+    if kind == "scale_rate":
+        res = st.scale_charger_rate(cid, r.choice([0.2, 0.5, 0.8, 1.0]))
+        if not isinstance(res, Failure):
+            new = res.unwrap()
+    elif kind == "append_plugs":
+        err, out = st.append_chargers(cid, 1, rp.e)
+        if err is None:
+            new = out
+    if new is None:
+        return rp
+    res = modify_entities_safe(rp, [new])
+    if isinstance(res, Failure):
+        return rp
+    ctx.count(f"cosim_{kind}")
+    if kind == "append_plugs" and cid in busy:
+        ctx.count("cosim_append_to_busy_plug_type")
+    return res.unwrap()
+
+
 def inject_request(ctx: Ctx, rp, k: int):
     """a co-simulation client adding a request between calls through the public state operations
     (simulation_state_ops.add_request_safe): the file reader's fleet-membership admission rule does not apply,
@@ -219,6 +258,16 @@ def run_trace(case: Dict[str, Any]) -> Dict[str, Any]:
             ctx.k = k
             ctx.t = int(rp.s.sim_time)
             ctx.prev = rp.s
+            if ctx.opts.get("cosim_noops") and k > 0 and k % int(ctx.opts["cosim_noops"]) == 0:
+                # what a co-simulation client may do between calls without changing anything: hand the payload the
+                # generators it already has (runner_payload_ops.set_instruction_generators)
+                from nrel.hive.runner.runner_payload_ops import set_instruction_generators
+
+                rp = set_instruction_generators(rp, tuple(rp.u.step_update.ordered_instruction_generators))
+                ctx.count("cosim_noop_generator_swaps")
+            if ctx.opts.get("cosim_ops"):
+                rp = cosim_ops(ctx, rp, k)
+                ctx.prev = rp.s
             if ctx.opts.get("inject_requests"):
                 rp = inject_request(ctx, rp, k)
                 ctx.prev = rp.s
